@@ -2,6 +2,7 @@ package protocol
 
 import (
 	"context"
+	"errors"
 	"io"
 	"time"
 
@@ -239,7 +240,9 @@ func vStubIsDuplicateFirst(c *replay.ReplayCache, data []byte, tag string) bool 
 // on this connection are not torn down by the stray segment.
 func vH_C01_stray_segment_for_closed_session() {
 	conn := &vFakeConn{in: make([]byte, 48)}
-	u := &StreamUnderlay{baseUnderlay: *newBaseUnderlay(false, 1400, nil), conn: conn, sessionCleanTicker: time.NewTicker(sessionCleanInterval)}
+	// the periodic clean-up does not fire during this call (a ticker that never ticks):
+	// the closed session is still registered, which is the situation of interest
+	u := &StreamUnderlay{baseUnderlay: *newBaseUnderlay(false, 1400, nil), conn: conn, sessionCleanTicker: &time.Ticker{C: make(chan time.Time)}}
 	u.recv = &vOracleCipher{user: "alice"}
 	s := vNewSession(7, false, common.StreamTransport)
 	s.forwardStateTo(sessionAttached)
@@ -247,6 +250,8 @@ func vH_C01_stray_segment_for_closed_session() {
 	s.forwardStateTo(sessionClosed)
 	s.closeRequested.Store(true)
 	close(s.closedChan)
+	s.recvChan = make(chan *segment, 1) // its input channel is full (nobody drains a closed session):
+	s.recvChan <- nil                   // delivery can only observe "session closed", also natively
 	u.sessionMap.Store(uint32(7), s)
 	// a payload-less data segment for session 7: type, id and lengths concrete,
 	// timestamp / sequence / ack / window arbitrary
@@ -257,7 +262,7 @@ func vH_C01_stray_segment_for_closed_session() {
 	vOracleScript = m
 	err := u.RunEventLoop(context.Background())
 	vAssert(err != nil, "the loop ends when the stream does")
-	et := stderror.GetErrorType(err)
+	et := stderror.GetErrorType(errors.Unwrap(err)) // RunEventLoop wraps the typed error of readOneSegment with fmt.Errorf
 	vAssume(et != stderror.PROTOCOL_ERROR && et != stderror.CRYPTO_ERROR) // the segment itself was well-formed and timely
 	vAssert(et == stderror.NETWORK_ERROR, "a data segment for a closed session is dropped and the loop reads on: it ends with the stream (network error), not because of the stray segment")
 	vAssert(conn.writes == 0, "nothing is written for a segment of a known, closed session")
